@@ -21,6 +21,8 @@ use crate::fontgen::type2::{diff_commands, Cmd};
 use crate::refmodel::type2::{Deviations, T2Font};
 use crate::fontgen::ttgen::cffgen::{self, cff_model, CffModel};
 use crate::fontgen::ttgen::{tt_model, woff1_wrap, ArgsModel, GlyphModel, TransformModel, TtModel};
+use crate::fontgen::cffx::{self, CffXLayout};
+use crate::fontgen::wrap::{glyph_info, tables_of, wrap, wrap_strategy, GlyphInfo, WrapSpec};
 use crate::refmodel::glyf_lite::{self as gl, Args, Component, GlyphLite, Transform, TtTables};
 use allsorts::binary::read::ReadScope;
 use allsorts::cff::cff2::CFF2;
@@ -151,6 +153,201 @@ fn build_list(num_glyphs: u16, composites: &[u16], components: &[u16], spec: &Li
     let mut list = vec![0u16];
     list.extend(chosen);
     list
+}
+
+// ------------------------------------------------------------------------------------------
+// extended glyph lists (sections `lists` and `containers`): modes 4.. of `ListSpec::mode`
+
+/// Extras of the two extension sections: container wrapping and source metric layout.
+#[derive(Clone, Debug, Default)]
+pub struct Extra {
+    pub wrap: Option<WrapSpec>,
+    /// TrueType sources: 1 = every lsb equals the glyph's xMin (what the WOFF2 hmtx transform
+    /// needs). Generated CFF sources: 1 = numberOfHMetrics 1, 2 = numGlyphs - 1, 3 = half.
+    pub metrics_sel: u8,
+    /// generated CFF sources: re-encode the table with another charset format / Encoding /
+    /// offset style (`fontgen::cffx`)
+    pub cff_layout: Option<CffXLayout>,
+}
+
+fn extra_strategy(wrapped: bool) -> BoxedStrategy<Extra> {
+    let m = prop_oneof![3 => Just(0u8), 2 => Just(1u8), 1 => Just(2u8), 1 => Just(3u8)];
+    let l = prop::option::weighted(0.75, cffx::layout_strategy());
+    if wrapped {
+        (wrap_strategy(), m, l).prop_map(|(w, metrics_sel, cff_layout)| Extra { wrap: Some(w), metrics_sel, cff_layout }).boxed()
+    } else {
+        (m, l).prop_map(|(metrics_sel, cff_layout)| Extra { wrap: None, metrics_sel, cff_layout }).boxed()
+    }
+}
+
+/// Lists of the extension sections: long lists up to 700 ids, and the modes
+/// 4 tail of the font (always the last glyph; ids around and past numberOfHMetrics),
+/// 5 only glyphs without outline, 6 composites interleaved with their components (as drawn),
+/// 7 one glyph of every Font DICT in turn (CID-keyed generated fonts), 8 a run of consecutive ids.
+fn list_strategy_x() -> impl Strategy<Value = ListSpec> {
+    let size = prop_oneof![30 => 1usize..=12, 4 => 13usize..=60, 3 => 250usize..=700, 1 => 254usize..=258];
+    let mode = prop_oneof![3 => Just(0u8), 1 => Just(1u8), 1 => Just(2u8), 1 => Just(3u8), 4 => Just(4u8), 2 => Just(5u8), 3 => Just(6u8), 2 => Just(7u8), 1 => Just(8u8)];
+    (size, 0u8..3, mode)
+        .prop_flat_map(|(n, order, mode)| (prop::collection::vec(any::<u32>(), n - 1), Just(order), Just(mode)))
+        .prop_map(|(picks, order, mode)| ListSpec { order, mode, picks })
+}
+
+struct ListCtx<'a> {
+    num_glyphs: u16,
+    nhm: u16,
+    composites: &'a [u16],
+    components: &'a [u16],
+    /// glyph ids (without 0) that draw nothing
+    blank: &'a dyn Fn() -> Vec<u16>,
+    comps_of: &'a dyn Fn(u16) -> Vec<u16>,
+    /// partition of the glyph ids (Font DICTs)
+    groups: &'a [Vec<u16>],
+}
+
+fn build_list_x(cx: &ListCtx<'_>, spec: &ListSpec) -> Vec<u16> {
+    let n = cx.num_glyphs;
+    let plain = |mode: u8| build_list(n, cx.composites, cx.components, &ListSpec { mode, ..spec.clone() });
+    if spec.mode < 4 || n < 2 {
+        return plain(spec.mode);
+    }
+    let want = spec.picks.len().min(n as usize - 1);
+    let mut chosen: Vec<u16> = Vec::with_capacity(want);
+    let mut taken: BTreeSet<u16> = BTreeSet::new();
+    taken.insert(0);
+    match spec.mode {
+        4 => {
+            let lo = if cx.nhm >= 2 && cx.nhm < n { cx.nhm - 1 } else { n.saturating_sub(16).max(1) };
+            let mut pool: Vec<u16> = (lo.max(1)..n - 1).collect();
+            if want > 0 {
+                chosen.push(n - 1);
+            }
+            for r in spec.picks.iter().take(want.saturating_sub(1)) {
+                if pool.is_empty() {
+                    break;
+                }
+                chosen.push(pool.swap_remove(pick(pool.len(), *r)));
+            }
+        }
+        5 => {
+            let mut pool = (cx.blank)();
+            if pool.is_empty() {
+                return plain(0);
+            }
+            for r in spec.picks.iter().take(want) {
+                if pool.is_empty() {
+                    break;
+                }
+                chosen.push(pool.swap_remove(pick(pool.len(), *r)));
+            }
+        }
+        6 => {
+            let mut parents: Vec<u16> = cx.composites.iter().copied().filter(|g| *g != 0).collect();
+            if parents.is_empty() {
+                return plain(0);
+            }
+            for r in spec.picks.iter() {
+                if chosen.len() >= want || parents.is_empty() {
+                    break;
+                }
+                let p = parents.swap_remove(pick(parents.len(), *r));
+                let cs: Vec<u16> = (cx.comps_of)(p).into_iter().filter(|c| *c < n).collect();
+                let first = r & 1 == 1;
+                if !first && taken.insert(p) {
+                    chosen.push(p);
+                }
+                for c in cs {
+                    if chosen.len() < want && taken.insert(c) {
+                        chosen.push(c);
+                    }
+                }
+                if first && chosen.len() < want && taken.insert(p) {
+                    chosen.push(p);
+                }
+            }
+            let mut list = vec![0u16];
+            list.extend(chosen);
+            return list;
+        }
+        7 => {
+            if cx.groups.len() < 2 {
+                return plain(0);
+            }
+            let mut pools: Vec<Vec<u16>> = cx.groups.iter().map(|g| g.iter().copied().filter(|x| *x != 0).collect()).collect();
+            for (i, r) in spec.picks.iter().take(want).enumerate() {
+                let k = (0..pools.len()).map(|d| (i + d) % pools.len()).find(|k| !pools[*k].is_empty());
+                match k {
+                    Some(k) => {
+                        let at = pick(pools[k].len(), *r);
+                        let g = pools[k].swap_remove(at);
+                        chosen.push(g);
+                    }
+                    None => break,
+                }
+            }
+        }
+        _ => {
+            let start = 1 + pick(n as usize - 1, spec.picks.first().copied().unwrap_or(0)) as u16;
+            for k in 0..want as u16 {
+                let g = start as u32 + k as u32;
+                chosen.push(if g < n as u32 { g as u16 } else { (g - n as u32 + 1) as u16 });
+            }
+        }
+    }
+    match spec.order {
+        0 => chosen.sort(),
+        2 => {
+            chosen.sort();
+            chosen.reverse();
+        }
+        _ => {}
+    }
+    let mut list = vec![0u16];
+    list.extend(chosen);
+    list
+}
+
+fn list_of(src: &Source, groups: &[Vec<u16>], blank: &dyn Fn() -> Vec<u16>, spec: &ListSpec) -> Vec<u16> {
+    let comps_of = |g: u16| src.tt.as_ref().and_then(|t| t.components_of(g).ok()).unwrap_or_default();
+    build_list_x(
+        &ListCtx {
+            num_glyphs: src.num_glyphs,
+            nhm: src.num_h_metrics,
+            composites: &src.composites,
+            components: &src.components,
+            blank,
+            comps_of: &comps_of,
+            groups,
+        },
+        spec,
+    )
+}
+
+/// blank glyphs of a TrueType source (independent reader)
+fn tt_blank(src: &Source) -> Vec<u16> {
+    match &src.tt {
+        Some(tt) => (1..src.num_glyphs).filter(|g| tt.glyph(*g).map_or(false, |x| x.is_blank())).collect(),
+        None => Vec::new(),
+    }
+}
+
+/// Wrap a bare sfnt per `extra.wrap`; (bytes to subset, member index).
+fn wrap_source(sfnt: &[u8], src: &Source, extra: &Extra, info: Option<&GlyphInfo>, rec: &mut Rec) -> Option<(Vec<u8>, usize)> {
+    let spec = extra.wrap.as_ref()?;
+    let (flavour, tables) = tables_of(sfnt)?;
+    let own;
+    let info = match (info, &src.tt) {
+        (Some(i), _) => Some(i),
+        (None, Some(tt)) if spec.kind == 1 || spec.kind == 2 => {
+            own = glyph_info(tt);
+            own.as_ref()
+        }
+        _ => None,
+    };
+    let w = wrap(flavour, &tables, spec, info);
+    for c in &w.classes {
+        rec.class(c);
+    }
+    Some((w.bytes, w.index))
 }
 
 // ------------------------------------------------------------------------------------------
@@ -328,6 +525,9 @@ struct Loaded {
     bytes: Vec<u8>,
     source: Source,
     rewrapped: OnceLock<Option<Vec<u8>>>,
+    /// glyph model for the WOFF2 glyf transform (extension sections)
+    info: OnceLock<Option<GlyphInfo>>,
+    blank: OnceLock<Vec<u16>>,
 }
 
 fn load(path: &str) -> Option<Arc<Loaded>> {
@@ -342,6 +542,8 @@ fn load(path: &str) -> Option<Arc<Loaded>> {
             bytes,
             source,
             rewrapped: OnceLock::new(),
+            info: OnceLock::new(),
+            blank: OnceLock::new(),
         }))
     });
     cache.lock().unwrap_or_else(|e| e.into_inner()).insert(path.to_string(), loaded.clone());
@@ -362,9 +564,9 @@ fn err_class(e: &SubsetError) -> String {
     }
 }
 
-fn run_subset(font: &[u8], list: &[u16], api: &Api) -> Result<Result<Vec<u8>, SubsetError>, String> {
+fn run_subset(font: &[u8], index: usize, list: &[u16], api: &Api) -> Result<Result<Vec<u8>, SubsetError>, String> {
     let fd = ReadScope::new(font).read::<FontData<'_>>().map_err(|e| format!("{:?}", e))?;
-    let prov = fd.table_provider(0).map_err(|e| format!("{:?}", e))?;
+    let prov = fd.table_provider(index).map_err(|e| format!("{:?}", e))?;
     Ok(match api {
         Api::Plain => allsorts::subset::subset(&prov, list),
         Api::Prince { target, cid } => {
@@ -1184,21 +1386,40 @@ fn classify_common(rec: &mut Rec, src: &Source, list: &[u16], api: &Api, spec: &
 }
 
 /// Shared tail of both sections: run the subsetter on `font_bytes` and compare with `src`.
-fn subset_and_compare(font_bytes: &[u8], src: &Source, list: &[u16], api: &Api, spec: &ListSpec, hooks: &CffHooks<'_>, rec: &mut Rec) -> Result<Option<(Vec<u16>, Vec<u8>)>, Fail> {
+fn subset_and_compare(font_bytes: &[u8], index: usize, bare: Option<&[u8]>, src: &Source, list: &[u16], api: &Api, spec: &ListSpec, hooks: &CffHooks<'_>, rec: &mut Rec) -> Result<Option<(Vec<u16>, Vec<u8>)>, Fail> {
     classify_common(rec, src, list, api, spec);
     rec.class(match container_of(font_bytes) {
         "woff" => "container:woff",
         "woff2" => "container:woff2",
+        "ttc" => "container:ttc",
         _ => "container:sfnt",
     });
-    let out = match run_subset(font_bytes, list, api) {
-        Err(_) => {
+    let out = match run_subset(font_bytes, index, list, api) {
+        Err(e) => {
             rec.class("container-unreadable");
+            if bare.is_some() {
+                return Err(fail("container-only-subset-error", format!("the {} container written by the harness (member {}) cannot be opened: {}", container_of(font_bytes), index, e)));
+            }
             return Ok(None);
         }
         Ok(Err(e)) => {
             // "a successful subset ...": failures are outside the statement; count them
             rec.class(&err_class(&e));
+            if container_of(font_bytes) != "sfnt" {
+                rec.class(&format!("{}@{}", err_class(&e), container_of(font_bytes)));
+            }
+            // extension sections: the font was wrapped by the harness's own (conformant) encoder.
+            // The same tables, list and options must not fail only because of the container
+            // ("... whether read from OpenType, WOFF or WOFF2").
+            if let Some(bare) = bare {
+                if let Ok(Ok(_)) = run_subset(bare, 0, list, api) {
+                    return Err(fail(
+                        "container-only-subset-error",
+                        format!("subsetting through the {} container (member {}) fails with {:?}; the same font as a bare sfnt subsets fine", container_of(font_bytes), index, e),
+                    ));
+                }
+                rec.class("wrap:subset-err-also-as-bare-sfnt");
+            }
             return Ok(None);
         }
         Ok(Ok(out)) => out,
@@ -1237,7 +1458,26 @@ fn subset_and_compare(font_bytes: &[u8], src: &Source, list: &[u16], api: &Api, 
 }
 
 fn check_fixture(c: &FixtureCase, thorough: bool, rec: &mut Rec) -> CaseResult {
-    let entry = match choose_entry(c.font, thorough) {
+    check_fixture_x(c, thorough, &Extra::default(), false, rec)
+}
+
+fn check_fixture_x(c: &FixtureCase, thorough: bool, extra: &Extra, cid_fixture: bool, rec: &mut Rec) -> CaseResult {
+    let chosen = if cid_fixture {
+        // the CID-keyed fixture (the one font above 1 MiB), at a low count also in the quick tier
+        catalogue().iter().find(|e| e.thorough_only).or_else(|| choose_entry(c.font, thorough))
+    } else if extra.wrap.is_some() {
+        // wrapping re-encodes the whole font per case: small and medium fixtures in bare sfnt form only
+        let cat = catalogue();
+        let usable: Vec<&Entry> = cat.iter().filter(|e| !e.thorough_only && e.weight >= 3 && !e.path.ends_with(".woff") && !e.path.ends_with(".woff2")).collect();
+        if usable.is_empty() {
+            None
+        } else {
+            Some(usable[pick(usable.len(), c.font)])
+        }
+    } else {
+        choose_entry(c.font, thorough)
+    };
+    let entry = match chosen {
         Some(e) => e,
         None => {
             rec.class("no-fixtures");
@@ -1252,9 +1492,27 @@ fn check_fixture(c: &FixtureCase, thorough: bool, rec: &mut Rec) -> CaseResult {
         }
     };
     let src = &loaded.source;
-    let list = build_list(src.num_glyphs, &src.composites, &src.components, &c.list);
-    let rewrap = c.rewrap && src.container == "sfnt" && loaded.bytes.len() <= 700 << 10;
-    let font_bytes: &[u8] = if rewrap {
+    let blank = || loaded.blank.get_or_init(|| tt_blank(src)).clone();
+    let list = list_of(src, &[], &blank, &c.list);
+    rec.class_if(cid_fixture, "fixture:cid-keyed-forced");
+    let wrapped = if src.container == "sfnt" && loaded.bytes.len() <= 320 << 10 {
+        let info = if src.kind == Kind::Tt && extra.wrap.as_ref().map_or(false, |w| w.kind == 1 || w.kind == 2) {
+            loaded.info.get_or_init(|| src.tt.as_ref().and_then(glyph_info)).as_ref()
+        } else {
+            None
+        };
+        rec.class_if(extra.wrap.is_some() && src.kind == Kind::Tt && info.is_none() && extra.wrap.as_ref().map_or(false, |w| (w.kind == 1 || w.kind == 2) && w.xform_glyf), "wrap:fixture-not-expressible");
+        // a fixture whose glyph model is unavailable is wrapped with the null transform
+        let x = Extra { wrap: extra.wrap.clone().map(|mut w| { if info.is_none() { w.xform_glyf = false; } w }), ..extra.clone() };
+        wrap_source(&loaded.bytes, src, &x, info, rec)
+    } else {
+        None
+    };
+    let index = wrapped.as_ref().map_or(0, |w| w.1);
+    let rewrap = wrapped.is_none() && c.rewrap && src.container == "sfnt" && loaded.bytes.len() <= 700 << 10;
+    let font_bytes: &[u8] = if let Some(w) = &wrapped {
+        &w.0
+    } else if rewrap {
         match loaded.rewrapped.get_or_init(|| woff1_wrap(&loaded.bytes)) {
             Some(w) => w,
             None => &loaded.bytes,
@@ -1266,9 +1524,12 @@ fn check_fixture(c: &FixtureCase, thorough: bool, rec: &mut Rec) -> CaseResult {
     rec.hash_bytes(src.name.as_bytes());
     rec.hash_bytes(&[rewrap as u8]);
     rec.hash_bytes(format!("{:?}{:?}", c.api, list).as_bytes());
+    if let Some(w) = &extra.wrap {
+        rec.hash_bytes(format!("{:?}", w).as_bytes());
+    }
     rec.sample(|| format!("{} ({}) api={:?} list={}", src.name, container_of(font_bytes), c.api, truncate(&format!("{:?}", list), 200)));
     rec.artefact("glyph-ids", format!("{} {:?}", src.name, list).as_bytes());
-    subset_and_compare(font_bytes, src, &list, &c.api, &c.list, &no_hooks(), rec).map(|_| ())
+    subset_and_compare(font_bytes, index, wrapped.as_ref().map(|_| &loaded.bytes[..]), src, &list, &c.api, &c.list, &no_hooks(), rec).map(|_| ())
 }
 
 fn model_to_lite(g: &GlyphModel) -> GlyphLite {
@@ -1316,7 +1577,27 @@ fn model_to_lite(g: &GlyphModel) -> GlyphLite {
 }
 
 fn check_generated(c: &GenCase, rec: &mut Rec) -> CaseResult {
-    let m = &c.model;
+    check_generated_x(c, &Extra::default(), rec)
+}
+
+fn check_generated_x(c: &GenCase, extra: &Extra, rec: &mut Rec) -> CaseResult {
+    let adjusted;
+    let m = if extra.metrics_sel == 1 {
+        // every left side bearing equals the glyph's xMin (the precondition of the WOFF2 hmtx transform)
+        let mut x = c.model.clone();
+        for (g, metric) in x.glyphs.iter().zip(x.metrics.iter_mut()) {
+            metric.1 = match g {
+                GlyphModel::Empty => 0,
+                GlyphModel::Simple(s) => s.bbox().0,
+                GlyphModel::Composite { bbox, .. } => bbox.0,
+            };
+        }
+        rec.class("gen:lsb=xMin");
+        adjusted = x;
+        &adjusted
+    } else {
+        &c.model
+    };
     let sfnt = m.build();
     let src = analyse("generated", &sfnt).expect("generated font must be readable by the harness's own readers");
     let tt = src.tt.as_ref().expect("generated font is TrueType");
@@ -1326,19 +1607,23 @@ fn check_generated(c: &GenCase, rec: &mut Rec) -> CaseResult {
         assert_eq!(got, model_to_lite(&m.glyphs[g as usize]), "glyph {} of the generated font does not read back", g);
         assert_eq!(src.metric(g), Some(m.metric(g)), "metric {} of the generated font does not read back", g);
     }
-    let list = build_list(src.num_glyphs, &src.composites, &src.components, &c.list);
+    let list = list_of(&src, &[], &|| tt_blank(&src), &c.list);
     let wrapped;
-    let font_bytes: &[u8] = if c.rewrap {
+    let by_spec = wrap_source(&sfnt, &src, extra, None, rec);
+    let index = by_spec.as_ref().map_or(0, |w| w.1);
+    let font_bytes: &[u8] = if let Some(w) = &by_spec {
+        &w.0
+    } else if c.rewrap {
         wrapped = woff1_wrap(&sfnt).expect("woff wrapper");
         &wrapped
     } else {
         &sfnt
     };
-    rec.class_if(c.rewrap, "container:rewrapped-by-fontgen");
+    rec.class_if(c.rewrap && by_spec.is_none(), "container:rewrapped-by-fontgen");
     rec.artefact("font", font_bytes);
     rec.artefact("glyph-ids", format!("{:?}", list).as_bytes());
     rec.hash_bytes(&sfnt);
-    rec.hash_bytes(format!("{:?}{:?}{}", c.api, list, c.rewrap).as_bytes());
+    rec.hash_bytes(format!("{:?}{:?}{}{:?}", c.api, list, c.rewrap, extra.wrap).as_bytes());
     rec.sample(|| {
         format!(
             "generated {} glyphs (nhm {}, {} composites) api={:?} list={}",
@@ -1373,7 +1658,7 @@ fn check_generated(c: &GenCase, rec: &mut Rec) -> CaseResult {
         refs.iter().any(|(c, ps)| in_list.contains(c) && ps.iter().any(|p| in_list.contains(p) && list.iter().position(|x| x == c) > list.iter().position(|x| x == p))),
         "gen:component-listed-after-parent",
     );
-    let mapping = subset_and_compare(font_bytes, &src, &list, &c.api, &c.list, &no_hooks(), rec)?;
+    let mapping = subset_and_compare(font_bytes, index, by_spec.as_ref().map(|_| &sfnt[..]), &src, &list, &c.api, &c.list, &no_hooks(), rec)?;
     if let Some((new_to_old, out)) = mapping {
         // and the subset against the model itself (not only old-vs-new through one reader)
         let dst = tables_of_sfnt(&out)?;
@@ -1393,29 +1678,72 @@ fn check_generated(c: &GenCase, rec: &mut Rec) -> CaseResult {
 }
 
 fn check_generated_cff(c: &GenCffCase, rec: &mut Rec) -> CaseResult {
+    check_generated_cff_x(c, &Extra::default(), rec)
+}
+
+fn check_generated_cff_x(c: &GenCffCase, extra: &Extra, rec: &mut Rec) -> CaseResult {
     let m = &c.model;
-    let otf = m.build_otf();
+    let mut otf = m.build_otf();
+    let ng = m.glyphs.len();
+    // numberOfHMetrics of the OTTO wrapper: numGlyphs, or (extension sections) 1 / numGlyphs - 1 / half
+    let nhm = match extra.metrics_sel {
+        1 => 1,
+        2 => ng.saturating_sub(1).max(1),
+        3 => (ng / 2).max(1),
+        _ => ng,
+    };
+    if nhm != ng || extra.cff_layout.is_some() {
+        use crate::fontgen::basic;
+        let (flavour, mut tables) = tables_of(&otf).expect("generated OTTO font");
+        if let Some(l) = &extra.cff_layout {
+            let (table, classes) = cffx::recode(m, l);
+            for c in classes {
+                rec.class(c);
+            }
+            tables.iter_mut().find(|t| &t.0 == b"CFF ").expect("CFF table").1 = table;
+        }
+        let metrics: Vec<(u16, i16)> = m.glyphs.iter().map(|g| (g.width, g.lsb)).collect();
+        let adv_max = metrics.iter().map(|x| x.0).max().unwrap_or(0);
+        for t in tables.iter_mut() {
+            if &t.0 == b"hmtx" {
+                t.1 = basic::hmtx(&metrics, nhm as u16);
+            } else if &t.0 == b"hhea" {
+                t.1 = basic::hhea(800, -200, adv_max, nhm as u16);
+            }
+        }
+        otf = crate::fontgen::sfnt::build_sfnt(flavour, &tables);
+        rec.class_if(nhm != ng, if nhm == 1 { "gencff:nhm=1" } else { "gencff:1<nhm<numGlyphs" });
+    }
     let src = analyse("generated-cff", &otf).expect("generated CFF font must be readable by the harness's own readers");
     // forward construction: the independent width reader must give back the model
     let lite = gl::cff_width::CffLite::parse(&src.cff).expect("generated CFF table must parse");
     assert_eq!(lite.char_strings.len(), m.glyphs.len());
     for (g, gm) in m.glyphs.iter().enumerate() {
         assert_eq!(lite.width(g as u16), Ok(gm.width as f64), "width of generated glyph {}", g);
-        assert_eq!(src.metric(g as u16), Some((gm.width, gm.lsb)));
+        // hmtx rule: glyphs at/after numberOfHMetrics take the advance of the last long metric
+        let adv = if g < nhm { gm.width } else { m.glyphs[nhm - 1].width };
+        assert_eq!(src.metric(g as u16), Some((adv, gm.lsb)));
     }
-    let list = build_list(src.num_glyphs, &[], &[], &c.list);
+    let groups: Vec<Vec<u16>> = (0..m.fds.len()).map(|fd| (0..ng as u16).filter(|g| m.glyphs[*g as usize].fd as usize == fd).collect()).collect();
+    let blank = || (1..ng as u16).filter(|g| m.glyphs[*g as usize].start.is_none() && m.glyphs[*g as usize].seac.is_none()).collect::<Vec<u16>>();
+    let list = list_of(&src, &groups, &blank, &c.list);
     let wrapped;
-    let font_bytes: &[u8] = if c.rewrap {
+    let by_spec = wrap_source(&otf, &src, extra, None, rec);
+    let index = by_spec.as_ref().map_or(0, |w| w.1);
+    let font_bytes: &[u8] = if let Some(w) = &by_spec {
+        &w.0
+    } else if c.rewrap {
         wrapped = woff1_wrap(&otf).expect("woff wrapper");
         &wrapped
     } else {
         &otf
     };
-    rec.class_if(c.rewrap, "container:rewrapped-by-fontgen");
+    rec.class_if(c.rewrap && by_spec.is_none(), "container:rewrapped-by-fontgen");
+    rec.class_if(m.cid && fds_all(&list, m), "gencff:list-has-every-fd");
     rec.artefact("font", font_bytes);
     rec.artefact("glyph-ids", format!("{:?}", list).as_bytes());
     rec.hash_bytes(&otf);
-    rec.hash_bytes(format!("{:?}{:?}{}", c.api, list, c.rewrap).as_bytes());
+    rec.hash_bytes(format!("{:?}{:?}{}{:?}", c.api, list, c.rewrap, extra.wrap).as_bytes());
     rec.sample(|| {
         format!(
             "generated CFF {} glyphs cid={} gsubrs={} lsubrs={:?} api={:?} list={}",
@@ -1489,7 +1817,12 @@ fn check_generated_cff(c: &GenCffCase, rec: &mut Rec) -> CaseResult {
     }
     rec.class_if(list.iter().any(|g| m.glyphs[*g as usize].seac.is_some()), "gencff:seac-glyph-retained");
     let seac = |g: u16| m.glyphs.get(g as usize).and_then(|gm| gm.seac).map(|s| (s.2, s.3));
-    subset_and_compare(font_bytes, &src, &list, &c.api, &c.list, &CffHooks { seac: &seac, expect: &|_| None }, rec).map(|_| ())
+    subset_and_compare(font_bytes, index, by_spec.as_ref().map(|_| &otf[..]), &src, &list, &c.api, &c.list, &CffHooks { seac: &seac, expect: &|_| None }, rec).map(|_| ())
+}
+
+fn fds_all(list: &[u16], m: &CffModel) -> bool {
+    let used: BTreeSet<u8> = list.iter().map(|g| m.glyphs[*g as usize].fd).collect();
+    m.fds.len() > 1 && used.len() == m.fds.len()
 }
 
 // ------------------------------------------------------------------------------------------
@@ -1754,6 +2087,10 @@ fn build_c18(f: &C18Font) -> C18Built {
 }
 
 fn check_generated_c18(c: &C18Case, rec: &mut Rec) -> CaseResult {
+    check_generated_c18_x(c, &Extra::default(), rec)
+}
+
+fn check_generated_c18_x(c: &C18Case, extra: &Extra, rec: &mut Rec) -> CaseResult {
     use crate::fontgen::basic;
     let b = build_c18(&c.font);
     let n = b.paths.len() as u16;
@@ -1770,8 +2107,8 @@ fn check_generated_c18(c: &C18Case, rec: &mut Rec) -> CaseResult {
         _ => n,
     };
     let adv_max = metrics.iter().map(|m| m.0).max().unwrap_or(0);
-    let extra = [(*b"hmtx", basic::hmtx(&metrics, nhm)), (*b"hhea", basic::hhea(800, -200, adv_max, nhm))];
-    let otf = crate::fontgen::cff::build_otf(b.table.clone(), b.cff2, n, &extra);
+    let extra_tables = [(*b"hmtx", basic::hmtx(&metrics, nhm)), (*b"hhea", basic::hhea(800, -200, adv_max, nhm))];
+    let otf = crate::fontgen::cff::build_otf(b.table.clone(), b.cff2, n, &extra_tables);
     let src = analyse("generated-c18", &otf).expect("generated C18 font must be readable by the harness's own readers");
     // self-check: the independent interpreter reads the model back from the source bytes
     let t2 = if b.cff2 { T2Font::parse_cff2(&src.cff) } else { T2Font::parse_cff(&src.cff) }.expect("generated table must parse");
@@ -1782,19 +2119,24 @@ fn check_generated_c18(c: &C18Case, rec: &mut Rec) -> CaseResult {
             Err(e) => panic!("generated glyph {} is not interpretable: {}", g, e),
         }
     }
-    let list = build_list(src.num_glyphs, &[], &[], &c.list);
+    let blank = || (1..n).filter(|g| b.paths[*g as usize].is_empty()).collect::<Vec<u16>>();
+    let list = list_of(&src, &[], &blank, &c.list);
     let wrapped;
-    let font_bytes: &[u8] = if c.rewrap {
+    let by_spec = wrap_source(&otf, &src, extra, None, rec);
+    let index = by_spec.as_ref().map_or(0, |w| w.1);
+    let font_bytes: &[u8] = if let Some(w) = &by_spec {
+        &w.0
+    } else if c.rewrap {
         wrapped = woff1_wrap(&otf).expect("woff wrapper");
         &wrapped
     } else {
         &otf
     };
-    rec.class_if(c.rewrap, "container:rewrapped-by-fontgen");
+    rec.class_if(c.rewrap && by_spec.is_none(), "container:rewrapped-by-fontgen");
     rec.artefact("font", font_bytes);
     rec.artefact("glyph-ids", format!("{:?}", list).as_bytes());
     rec.hash_bytes(&otf);
-    rec.hash_bytes(format!("{:?}{:?}{}", c.api, list, c.rewrap).as_bytes());
+    rec.hash_bytes(format!("{:?}{:?}{}{:?}", c.api, list, c.rewrap, extra.wrap).as_bytes());
     rec.sample(|| format!("c18 font {} glyphs cff2={} classes={:?} api={:?} list={}", n, b.cff2, b.classes, c.api, truncate(&format!("{:?}", list), 160)));
     for cl in b.classes.iter().take(12) {
         rec.class(cl);
@@ -1804,7 +2146,63 @@ fn check_generated_c18(c: &C18Case, rec: &mut Rec) -> CaseResult {
     rec.class_if(list.iter().any(|g| b.seac.contains_key(g)), "c18gen:seac-glyph-retained");
     let seac = |g: u16| b.seac.get(&g).copied();
     let expect = |g: u16| b.paths.get(g as usize).cloned();
-    subset_and_compare(font_bytes, &src, &list, &c.api, &c.list, &CffHooks { seac: &seac, expect: &expect }, rec).map(|_| ())
+    subset_and_compare(font_bytes, index, by_spec.as_ref().map(|_| &otf[..]), &src, &list, &c.api, &c.list, &CffHooks { seac: &seac, expect: &expect }, rec).map(|_| ())
+}
+
+// ------------------------------------------------------------------------------------------
+// extension sections: every source class x extended lists x every API option, bare (`lists`)
+// and through every container (`containers`)
+
+#[derive(Clone, Debug)]
+pub enum XSource {
+    Tt(GenCase),
+    Cff(GenCffCase),
+    C18(C18Case),
+    /// .1: force the CID-keyed fixture
+    Fixture(FixtureCase, bool),
+}
+
+#[derive(Clone, Debug)]
+pub struct XCase {
+    pub src: XSource,
+    pub extra: Extra,
+}
+
+fn x_strategy(wrapped: bool) -> impl Strategy<Value = XCase> {
+    let (w_tt, w_cff, w_c18, w_fix) = if wrapped { (5, 2, 2, 3) } else { (3, 3, 2, 4) };
+    let cid = if wrapped { 0.0 } else { 0.012 };
+    let src = prop_oneof![
+        w_tt => (tt_model(), list_strategy_x(), api_strategy()).prop_map(|(model, list, api)| XSource::Tt(GenCase { model, list, api, rewrap: false })),
+        w_cff => (cff_model(), list_strategy_x(), api_strategy()).prop_map(|(model, list, api)| XSource::Cff(GenCffCase { model, list, api, rewrap: false })),
+        w_c18 => (c18_font_strategy(), list_strategy_x(), api_strategy(), any::<u32>())
+            .prop_map(|(font, list, api, metrics_seed)| XSource::C18(C18Case { font, list, api, rewrap: false, metrics_seed })),
+        w_fix => (any::<u32>(), list_strategy_x(), api_strategy(), prop::bool::weighted(cid))
+            .prop_map(|(font, list, api, cid)| XSource::Fixture(FixtureCase { font, list, api, rewrap: false }, cid)),
+    ];
+    (src, extra_strategy(wrapped)).prop_map(|(src, extra)| XCase { src, extra })
+}
+
+fn check_x(c: &XCase, thorough: bool, rec: &mut Rec) -> CaseResult {
+    let spec = match &c.src {
+        XSource::Tt(g) => &g.list,
+        XSource::Cff(g) => &g.list,
+        XSource::C18(g) => &g.list,
+        XSource::Fixture(g, _) => &g.list,
+    };
+    rec.class(match spec.mode {
+        0..=3 => "xlist:classic-mode",
+        4 => "xlist:tail-of-font",
+        5 => "xlist:blank-glyphs-only",
+        6 => "xlist:composites-interleaved-with-components",
+        7 => "xlist:one-glyph-per-font-dict-in-turn",
+        _ => "xlist:consecutive-run",
+    });
+    match &c.src {
+        XSource::Tt(g) => check_generated_x(g, &c.extra, rec),
+        XSource::Cff(g) => check_generated_cff_x(g, &c.extra, rec),
+        XSource::C18(g) => check_generated_c18_x(g, &c.extra, rec),
+        XSource::Fixture(g, cid) => check_fixture_x(g, thorough, &c.extra, *cid, rec),
+    }
 }
 
 // ------------------------------------------------------------------------------------------
@@ -1919,7 +2317,10 @@ impl Property for C07 {
          bias edges 1240 and 33900, nested subroutine calls, seac glyphs) and fonts of the C18 generator (name-keyed, CID-keyed, CFF2 static/variable: every Type 2 operator form and \
          number encoding, stem hints with hintmask/cntrmask, subroutines nested to depth 10 at every bias band, seac with hinted components) wrapped as OTTO; lists are [0] ++ distinct ids of size 1-12 mostly, sometimes 250-300 and ~600, ascending/shuffled/descending, biased to \
          composite parents or to components. A case is non-trivial when the subset succeeded, at least 2 glyphs were retained and at least one retained glyph \
-         has an outline; distinct = distinct (font, list, API option, container)."
+         has an outline; distinct = distinct (font, list, API option, container). Extension sections `lists` and `containers` draw every source class again (generated TrueType, generated CFF \
+         re-encoded with charset formats 0/1/2 with id gaps, custom Encodings 0/1, FDSelect 0/3, short or 5-byte DICT offsets, numberOfHMetrics 1 / numGlyphs-1 / half; C18 fonts; fixtures incl. the CID-keyed one) with lists of up to 700 ids and \
+         the modes tail-of-font (always the last glyph, ids around/past numberOfHMetrics), blank glyphs only, composites interleaved with their components, one glyph per Font DICT in turn, consecutive runs; `containers` subsets \
+         through WOFF, WOFF2 (null/transformed glyf+loca, transformed hmtx), WOFF2 collections and TTC files written by the harness (target member index 0..2 among decoy members sharing glyf/loca/CFF but not hmtx) and compares with the bare tables."
             .into()
     }
     fn assumptions(&self) -> Vec<String> {
@@ -1931,6 +2332,8 @@ impl Property for C07 {
             "generated CFF fonts are accepted as faithful because allsorts' visitor draws exactly the model path on the source (class gencff:source-path=model, measured) and the independent width reader returns the model widths (asserted)".into(),
             "the order of the appended component glyphs is not asserted (only that they are exactly the composite closure, each once, after the requested glyphs)".into(),
             "an Err from the subsetter is outside the statement ('a successful subset') and only counted".into(),
+            "section containers: the WOFF/WOFF2/TTC files come from the harness's own conformant encoders (fontgen::wrap on top of fontgen::container and fontgen::woff2); a subset error that occurs only through such a container while the bare sfnt subsets fine is reported (C07:container-only-subset-error); WOFF2 hmtx transform flag bit 1 is never used (known finding C11:hmtx-lsb-array-not-skipping-long-metrics)".into(),
+            "vmtx/vhea are not carried by the subsetter (src/subset.rs writes only hhea/hmtx): nothing is asserted about vertical metrics".into(),
         ]
     }
     fn run(&self, ctx: &mut Ctx) {
@@ -1964,6 +2367,10 @@ impl Property for C07 {
                 .prop_map(|(font, list, api, rewrap, metrics_seed)| C18Case { font, list, api, rewrap, metrics_seed }),
             |c, rec| check_generated_c18(c, rec),
         );
+        let n = ctx.cases(6_000, 250_000);
+        ctx.section("lists", n, x_strategy(false), move |c, rec| check_x(c, thorough, rec));
+        let n = ctx.cases(6_000, 250_000);
+        ctx.section("containers", n, x_strategy(true), move |c, rec| check_x(c, thorough, rec));
         let n = catalogue().len() as u64;
         ctx.enumerate("reader-crosscheck", n, false, |i, rec| crosscheck_reader(i, rec));
     }
